@@ -375,6 +375,34 @@ def nb_poly(prog):
         fn = prog.find1(name=nm, self_adt=P, impl_trait=tr, unit="rsdd-lib")
         te = fn.terms
         stores = [s for s in te.stores if s[1][0] == "index"]
+        # writes that cannot leave the array by construction: through `get_mut(i)` (None when out of range), or through
+        # an `iter_mut()` zipped with the operands (in a closure handed to for_each)
+        safe = 0
+        for (bb, pt, val, line) in te.stores:
+            p_ = strip(pt)
+            while isinstance(p_, tuple) and p_ and p_[0] in ("deref", "ref"):
+                p_ = strip(p_[1])
+            if isinstance(p_, tuple) and p_ and p_[0] == "field" and p_[2] == "0" and isinstance(p_[1], tuple) and p_[1][0] == "as" and \
+                    p_[1][2] == "Some" and mir.is_call(strip(p_[1][1]), "get_mut"):
+                safe += 1
+                n += 1
+                out.append(inst("NB", "%s:coeff-write#g%d" % (fn.npath, safe), OK, fn, line, "written through get_mut(): out-of-range indices are skipped"))
+        for (bb, pt, val, line) in te.stores:
+            # `for (slot, ..) in arr.iter_mut().zip(..) { *slot = .. }`: the slot comes out of an iter_mut()
+            p_ = strip(pt)
+            for x in mir.subterms(p_):
+                if mir.is_call(x, "next") and x[2] and strip(x[2][0])[0] == "mutref":
+                    for (h, l), init in te.mu_init.items():
+                        if l == strip(x[2][0])[1] and any(mir.is_call(y, "iter_mut") for y in mir.subterms(init)) and p_[0] == "field":
+                            safe += 1
+                            n += 1
+                            out.append(inst("NB", "%s:coeff-write#i%d" % (fn.npath, safe), OK, fn, line,
+                                            "written through a slot of iter_mut(): the iterator cannot leave the array"))
+        for cs in te.calls:
+            if cs.callee.name == "for_each" and cs.args and any(mir.is_call(x, "iter_mut") for x in mir.subterms(cs.args[0])):
+                safe += 1
+                n += 1
+                out.append(inst("NB", "%s:coeff-write#z%d" % (fn.npath, safe), OK, fn, cs.line, "written through iter_mut(): the iterator cannot leave the array"))
         for k, (bb, pt, val, line) in enumerate(stores):
             idx = strip(pt[2])
             ok = False
